@@ -440,7 +440,7 @@ func TestC07(t *testing.T) {
 			}
 			g.Styles(w.Root)
 			lay := g.Layout()
-			kind := rapid.SampledFrom([]string{"unknown-key", "shell", "permission-value", "permission-scope", "event", "cron", "glob", "needs", "runner-label", "input-type"}).Draw(rt, "kind")
+			kind := rapid.SampledFrom([]string{"unknown-key", "shell", "permission-value", "permission-scope", "event", "cron", "glob", "needs", "runner-label", "runner-label-from-matrix", "input-type"}).Draw(rt, "kind")
 			var target *ye.Node
 			var msgSub string
 			colOff := 0
@@ -528,6 +528,43 @@ func TestC07(t *testing.T) {
 				if target != nil {
 					setVal(target, "ubuntu-bogus")
 					msgSub = "label \"ubuntu-bogus\" is unknown"
+				}
+			case "runner-label-from-matrix":
+				// runs-on: ${{ matrix.os }}: the labels come from the row values or from include entries
+				// and are reported where they are written
+				jobs := w.Root.Get("jobs")
+				if jobs != nil && jobs.Kind == ye.Map {
+					bad := ye.S("ubuntu-bogus")
+					m := ye.M()
+					if rapid.Bool().Draw(rt, "viainclude") {
+						m.Set("os", ye.L(ye.S("ubuntu-latest")))
+						inc := ye.M()
+						if rapid.Bool().Draw(rt, "otherkeyfirst") {
+							inc.Set("arch", ye.S("x64"))
+						}
+						inc.Set("os", bad)
+						inc.Flow = rapid.Bool().Draw(rt, "incflow")
+						m.Set("include", ye.L(ye.M().Set("os", ye.S("macos-latest")), inc))
+					} else {
+						row := ye.L(ye.S("ubuntu-latest"), bad, ye.S("windows-latest"))
+						row.Flow = rapid.Bool().Draw(rt, "rowflow")
+						m.Set("os", row)
+					}
+					j := ye.M()
+					j.Set("strategy", ye.M().Set("matrix", m))
+					if rapid.Bool().Draw(rt, "labelsform") {
+						j.Set("runs-on", ye.M().Set("labels", ye.Q("${{ matrix.os }}", ye.Double)))
+					} else {
+						j.Set("runs-on", ye.S("${{ matrix.os }}"))
+					}
+					j.Set("steps", ye.L(ye.M().Set("run", ye.S("echo"))))
+					at := rapid.IntRange(0, len(jobs.Keys)).Draw(rt, "jobat")
+					jobs.Keys = append(jobs.Keys[:at:at], append([]*ye.Node{ye.S("zzrunner")}, jobs.Keys[at:]...)...)
+					jobs.Vals = append(jobs.Vals[:at:at], append([]*ye.Node{j}, jobs.Vals[at:]...)...)
+					if rapid.Bool().Draw(rt, "qbad") {
+						bad.Style = rapid.SampledFrom([]ye.Style{ye.Single, ye.Double}).Draw(rt, "qbads")
+					}
+					target, msgSub = bad, "label \"ubuntu-bogus\" is unknown"
 				}
 			case "input-type":
 				target = pickLeaf(func(l *wf.Leaf) bool { return l.Path == "on.workflow_call.inputs.<inputs_id>.type" })
